@@ -122,7 +122,7 @@ def cases(draw, family):
     opts = draw(options())
     hseeds = draw(st.lists(st.sampled_from([1, 2, 3, 7, 42, 1234, 99999, 4294967295]), min_size=2, max_size=2, unique=True))
     if family == "xsd":
-        spec = draw(S.schema_specs(S.Opts(name_pool=S.PLAIN_NAMES + ["itemClass", "UnitClass"])))
+        spec = draw(S.schema_specs(S.Opts(name_pool=S.PLAIN_NAMES + ["itemClass", "UnitClass"], components=True)))
         return {"family": "xsd", "spec": spec, "options": opts, "hash_seeds": hseeds}
     if family == "multi-xsd":
         if draw(st.booleans()):
